@@ -22,8 +22,77 @@ ASSUMPTIONS = [
 TRUSTED = ['z3 unsat answers (cvc5 cross-check in the thorough tier)', 'CPython ast module', 'pyvc engine (symbolic executor, libspec encodings)']
 
 
+# ---- RunCommand.execute: what was read is scheduled, and the WHOLE environment is written back once, under the same file name and format
+RUNCMD = 'valjean/cambronne/commands/run.py'
+
+
+def exec_world():
+    from pyvc.verify import World, ClassModel
+    from pyvc.values import SNamespace
+    w = World()
+    w.globals['LOGGER'] = SNamespace('LOGGER', dropped=True)
+    for cname in ('RunCommand', 'Args', 'ConfigX', 'EnvX', 'Graph', 'TaskX'):
+        w.class_models[cname] = type(cname, (ClassModel,), {'name': cname, 'fields': {}})(w)
+    w.class_models['ConfigX'].m_query = lambda I, c, section, option: I.output_root
+    w.class_models['ConfigX'].m___setitem__ = lambda I, c, k, v: None
+    w.class_models['Graph'].m_nodes = lambda I, g: list(I.tasks)
+    w.class_models['Graph'].m___len__ = lambda I, g: len(I.tasks)
+    w.class_models['RunCommand'].m_task_diagnostics = lambda I, me, **kw: I.trace.append(('diagnostics', kw.get('env')))
+    w.globals['vars'] = lambda I, o: {}
+    w.globals['build_graphs'] = lambda I, args: (I.hard, I.soft)
+
+    def read_env(I, *, root, names, filename, fmt):
+        I.trace.append(('read_env', root, list(names), filename, fmt))
+        return I.env_read
+
+    def schedule(I, *, hard_graph, soft_graph, env, config=None, workers=1):
+        I.trace.append(('schedule', hard_graph, soft_graph, env))
+        # the scheduler updates the environment it is given and returns it (contract of Scheduler.schedule, sched_worker.py)
+        return env
+
+    def write_env(I, env, *, filename, fmt):
+        I.trace.append(('write_env', env, filename, fmt))
+    w.globals.update({'read_env': read_env, 'schedule': schedule, 'write_env': write_env})
+    return w
+
+
+def exec_setup(I, scope):
+    from pyvc.values import STR, INT
+    I.trace = []
+    I.output_root = I.fresh(STR, 'output_root')
+    I.tasks = [I.alloc('TaskX', {'name': I.fresh(STR, f'name{k}')}) for k in range(2)]
+    I.hard, I.soft = I.alloc('Graph', {}), I.alloc('Graph', {})
+    I.env_read = I.alloc('EnvX', {})
+    I.fname, I.fmt = I.fresh(STR, 'env_filename'), I.fresh(STR, 'env_format')
+    scope.set('self', I.alloc('RunCommand', {}))
+    scope.set('args', I.alloc('Args', {'env_filename': I.fname, 'env_format': I.fmt, 'workers': I.fresh(INT, 'workers')}))
+    scope.set('config', I.alloc('ConfigX', {}))
+
+
+def c_execute():
+    from pyvc.engine import Contract
+    return Contract(RUNCMD, 'RunCommand.execute', params={}, signals={})
+
+
+def exec_check(I, scope, outcome):
+    L = f'{RUNCMD}::RunCommand.execute'
+    p = I.path
+    reads = [e for e in I.trace if e[0] == 'read_env']
+    scheds = [e for e in I.trace if e[0] == 'schedule']
+    writes = [e for e in I.trace if e[0] == 'write_env']
+    ok_r = len(reads) == 1 and reads[0][1] is I.output_root and len(reads[0][2]) == len(I.tasks) and reads[0][3] is I.fname and reads[0][4] is I.fmt
+    p.oblige(f'{L}::post::C14-the-environment-of-every-task-of-the-job-is-read-back-first', ok_r and outcome[0] == 'return', kind='post',
+             meta={'expr': 'read_env(root=output-root, names=<all task names>, filename=args.env_filename, fmt=args.env_format) once'})
+    ok_s = ok_r and len(scheds) == 1 and scheds[0][3] is I.env_read and scheds[0][1] is I.hard and scheds[0][2] is I.soft
+    p.oblige(f'{L}::post::C14-what-was-read-is-what-is-scheduled', ok_s, kind='post', meta={'expr': 'schedule(hard_graph, soft_graph, env=<the environment read>)'})
+    ok_w = ok_s and len(writes) == 1 and writes[0][1] is I.env_read and writes[0][2] is I.fname and writes[0][3] is I.fmt \
+        and I.trace.index(writes[0]) > I.trace.index(scheds[0])
+    p.oblige(f'{L}::post::C14-the-whole-environment-is-written-once-after-the-run-under-the-name-it-is-read-from', ok_w, kind='post',
+             meta={'expr': 'write_env(<the environment scheduled, unfiltered>, filename=args.env_filename, fmt=args.env_format) once, after schedule()'})
+
+
 def units(tier):
-    return ['from_file', 'to_file', 'merge_done', 'read_env', 'write_env', 'native']
+    return ['from_file', 'to_file', 'merge_done', 'read_env', 'write_env', 'run_command', 'native']
 
 
 def run_unit(unit, tier, seed, known):
@@ -39,6 +108,11 @@ def run_unit(unit, tier, seed, known):
         return eu.unit_read_env(tier, ID)
     if unit == 'write_env':
         return eu.unit_write_env(tier, ID)
+    if unit == 'run_command':
+        from pyvc import prop
+        from pyvc.verify import verify_function
+        res = verify_function(exec_world(), c_execute(), setup=exec_setup, extra_check=exec_check)
+        return {'functions': [prop.discharge(res, tier, ID, lambda m, r: {'note': 'see model text'}, eu._replay_persist)]}
     if unit == 'native':
         return {'bounded': [pn.sweep(tier, seed)]}
     raise KeyError(unit)
